@@ -6,7 +6,7 @@ CONSTANTS
   Outcomes = {"success", "revert", "panic", "failflag", "stuck"}
   Replies = {"sat_valid", "sat_abstract", "unsat", "unsat_rc1", "unsat_shared", "unknown", "timeout", "garbage", "empty", "nonzero", "crash", "spawnfail"}
   Replies2 = {"sat_valid", "sat_abstract", "unsat", "unsat_rc1", "unknown", "timeout", "garbage", "empty", "nonzero", "crash", "spawnfail"}
-  StuckReplies = {"sat_valid", "sat_abstract", "unsat", "unsat_rc1", "unknown", "timeout", "garbage", "empty", "nonzero", "crash", "spawnfail"}
+  StuckReplies = {"sat_valid", "sat_abstract", "unsat", "unsat_rc1", "unknown", "timeout", "garbage", "empty", "nonzero", "crash"}
   EarlySet = {TRUE, FALSE}
   CacheSet = {TRUE, FALSE}
   RefinableSet = {TRUE, FALSE}
@@ -16,4 +16,7 @@ CONSTANTS
   RecordHist = FALSE
   Canon = FALSE
   Coarse = FALSE
-INVARIANTS TypeOK PassOnlyIfClean CleanPasses VerdictModuloKnown OrderIndependenceModuloKnown OrderIndependenceNoEarly ExitNonZeroIffNotAllPass ValidNeverAbstract OneOutputPerQuery ShutdownOnlyAfterValid
+  MutPrecedence = FALSE
+  MutNoCatch = FALSE
+  KilledMayRaise = FALSE
+INVARIANTS TypeOK PassOnlyIfClean CleanPasses VerdictIsPrecedence OrderIndependence NoLostCounterexampleStrict OrderIndependenceNoEarly ExitNonZeroIffNotAllPass ValidNeverAbstract OneOutputPerQuery ShutdownOnlyAfterValid
